@@ -410,6 +410,8 @@ func H_C14_Stream() {
 		// an unencrypted but otherwise well-formed user message stream, behind the right label header
 		plainConf := vBaseConfig()
 		plainConf.Label = label
+		// ... sent as is or inside the (equally unauthenticated) compression wrapper
+		plainConf.EnableCompression = vPick(2) == 1
 		fp := vNewML(plainConf)
 		pc := &vConn{}
 		fp.tr.conn = pc
